@@ -112,6 +112,15 @@ def module_attr(it, m, attr):
         if attr == "linalg":
             return ModuleV("numpy.linalg")
         raise Unsupported("numpy.%s has no stated semantics" % attr)
+    if m.name == "numpy.random":
+        if attr == "seed":
+            def seed(it, *a, **k):
+                # np.random.seed() without arguments re-seeds the process-global generator from OS entropy
+                it.ghost["rng_reseeded_from_entropy"] = (len(a) == 0 or a[0] is None) and not k
+                return None
+
+            return BuiltinV("np.random.seed", seed)
+        raise Unsupported("numpy.random.%s has no stated semantics (stub it in the contract)" % attr)
     if m.name == "math":
         if attr == "ceil":
             return BuiltinV("math.ceil", b_ceil)
@@ -1048,8 +1057,8 @@ def arr_method(it, a, name, args, kwargs, node):
             return a.get(*args)
         if all(is_concrete(x) for x in args) and is_concrete(a):
             return getattr(a, name)(*args, **kwargs)
-        if name == "format":
-            return Opaque("formatted")
+        if name == "format" or (isinstance(a, str) and name in ("join", "replace", "strip", "split", "lower", "upper", "rjust", "ljust")):
+            return Opaque("string built from non-literal parts")
         if name == "index" and isinstance(a, list) and is_concrete(args[0]):
             return a.index(args[0])
         raise Unsupported("method %s on %s with symbolic arguments" % (name, type(a).__name__))
